@@ -162,6 +162,13 @@ func checkC05(ctx *Ctx, r *Report, tier string) {
 		r.undecided("T7", "mcToTriangles", 0, "kernel function not found")
 		return
 	}
+	// T6 degenerate guard
+	degenerateGuard(ctx, r, kfn, "T6", "Triangle3")
+	if cf := ctx.ssaFunc("render", "verifCtlKernelNoDegenerate"); cf != nil {
+		degenerateGuard(ctx, r, cf, "T6", "Triangle3")
+	}
+	r.floor("T6", 1)
+	r.expectControl("T6", "verifCtlKernelNoDegenerate")
 	kf, err := analyseKernel(ctx, kfn, 3, "mcInterpolate")
 	if err != nil {
 		r.undecided("T4", "mcToTriangles", kfn.Pos(), "kernel shape not recognised: "+err.Error())
@@ -212,13 +219,6 @@ func checkC05(ctx *Ctx, r *Report, tier string) {
 	interpSymmetry(ctx, r, "render", "mcInterpolate", "T8")
 	r.floor("T8", 2)
 
-	// T6 degenerate guard
-	degenerateGuard(ctx, r, kfn, "T6", "Triangle3")
-	if cf := ctx.ssaFunc("render", "verifCtlKernelNoDegenerate"); cf != nil {
-		degenerateGuard(ctx, r, cf, "T6", "Triangle3")
-	}
-	r.floor("T6", 1)
-	r.expectControl("T6", "verifCtlKernelNoDegenerate")
 
 	if tb == nil || ucm == nil || !validBits(ucm.bits, 3) {
 		return
